@@ -374,6 +374,8 @@ struct Seq<C: Caps> {
     facts: SeqFacts,
     tag: &'static str,
     check_events: bool,
+    /// serials the model says the library destroyed in the current step
+    expect_destroyed: Vec<u64>,
     _c: std::marker::PhantomData<C>,
 }
 
@@ -449,6 +451,7 @@ impl<C: Caps> Seq<C> {
             facts: SeqFacts::default(),
             tag: mode.diff_tag,
             check_events: mode.check_events,
+            expect_destroyed: vec![],
             _c: std::marker::PhantomData,
         };
         // aux storage: a value on every second live candidate
@@ -495,12 +498,15 @@ impl<C: Caps> Seq<C> {
     fn kill_model(&mut self, k: usize, ex: &mut Expect) {
         let id = self.cands[k].id();
         self.alive[k] = false;
-        if self.model.remove(&id).is_some() {
+        if let Some(ident) = self.model.remove(&id) {
             ex.rem(id);
             self.facts.entity_deletion_with_comp = true;
             self.facts.removed_any = true;
+            self.expect_destroyed.push(ident.0);
         }
-        self.aux.remove(&id);
+        if let Some(ident) = self.aux.remove(&id) {
+            self.expect_destroyed.push(ident.0);
+        }
     }
 
     fn model_insert(&mut self, id: u32, ident: Ident) {
@@ -916,6 +922,7 @@ impl<C: Caps> Seq<C> {
             }
             SOp::Clear => {
                 self.w().write_storage::<C>().clear();
+                self.expect_destroyed.extend(self.model.values().map(|v| v.0));
                 self.model.clear();
                 self.cleared = true;
                 self.facts.removed_any = true;
@@ -1291,6 +1298,14 @@ impl<C: Caps> Seq<C> {
             return Err(vio(if tag == "C19" { "C19" } else { "C08" }, "ledger", e.clone()));
         }
         let lt = if tag == "C19" { "C19" } else { "C08" };
+        // C08: values purged by an entity deletion / clear are destroyed by that very operation
+        for serial in std::mem::take(&mut self.expect_destroyed) {
+            if serial != 0 && tag != "C19" {
+                let st = with_ledger(|l| l.state_of(serial));
+                ensure!("C08", "not-destroyed-on-deletion", st != Some(zoo::St::Live),
+                    "{:?}: the value with serial {} is still alive after the operation that deletes its entity / clears the storage", kind, serial);
+            }
+        }
         let w = self.world.as_ref().unwrap();
         let st = w.read_storage::<C>();
         let mask: Vec<u32> = st.mask().iter().collect();
